@@ -687,6 +687,13 @@ fn replay(rf: &vcore::Value) {
     let mut rep = Report::new("replay", &prop);
     let mut seen = HashSet::new();
     let mut stats = Stats { images: 0, recoveries: 0, deduped: 0, variant_cap_hits: 0, fault_runs: 0, validated: 0 };
+    if std::env::var("VERIF_DUMP_JOURNAL").is_ok() {
+        let live = scratch.sub("live");
+        let rec = record(&cfg, &ops, &live, None);
+        for (i, r) in rec.journal.iter().enumerate() {
+            println!("  #{i}: {}", r.describe(&live));
+        }
+    }
     println!("replaying every crash point and fault of the last step of {:?} on {}", ops.iter().map(|o| o.name()).collect::<Vec<_>>(), cfg.name);
     explore_history(&plan, &cfg, &ops, &scratch, &mut rep, &mut seen, &mut stats);
     let want = rf["signature"].as_str().unwrap_or("");
